@@ -1,7 +1,7 @@
 //! C06 - strand symmetry when unstranded, strand separation when stranded.
 use super::c04::{decode, payload_map, sharded_any};
 use super::note;
-use crate::case::{GCase, Part};
+use vglue::case::{GCase, Part};
 use crate::pipe::*;
 use debruijn::compression::*;
 use debruijn::filter::*;
